@@ -259,6 +259,33 @@ def _s2(program, model, res):
                 res.ok("C10-S2", "the request handed to a source derives from self.columns_used_from_sources(record)")
             else:
                 res.fail_at("C10-S2", m, "request-source", "the `using` handed to a source does not derive from columns_used_from_sources", c)
+    # the recursion is unconditional: every path that does not raise passes through the loop over the sources
+    # (a node's decision / key / order columns are needed from its source even when none of its outputs is requested)
+    loop_nodes = [n for n in g.stmt_nodes(("iter",)) if any(isinstance(c, ast.Call) and isinstance(c.func, ast.Attribute)
+                                                           and c.func.attr == "columns_used_implementation_" for c in ast.walk(n.stmt))]
+    if loop_nodes:
+        ln = loop_nodes[0]
+        skipping = None
+        n_paths = 0
+        for path in g.paths(limit=20000):
+            ids = [nid for (nid, _l) in path]
+            last = g.nodes[ids[-2]] if len(ids) >= 2 else None
+            if last is not None and last.kind in ("raise", "assertfail"):
+                continue
+            n_paths += 1
+            if ln.id not in ids:
+                # a path that established "no sources" skips nothing
+                if any(g.nodes[nid].kind == "test" and "self.sources" in unparse(g.nodes[nid].cond) for (nid, _l) in path):
+                    continue
+                skipping = path
+                break
+        if skipping is not None:
+            conds = [f"{unparse(g.nodes[nid].cond)[:50]} is {lab}" for (nid, lab) in skipping if g.nodes[nid].kind == "test"]
+            res.fail_at("C10-S2", m, "recursion-skipped-on-some-path",
+                        f"columns_used_implementation_ can return without visiting its sources (path: {'; '.join(conds[-3:])}): a node that is asked for "
+                        f"no new columns still needs its decision / key / ordering columns from its source, which are then never reported", ln.stmt)
+        else:
+            res.ok("C10-S2", f"every non-raising path ({n_paths}) of columns_used_implementation_ recurses into the sources")
     cu = program.method("view_representations", "ViewRepresentation", "columns_used", inherited=False)
     res.analysed(cu)
     txt = unparse(cu.node)
